@@ -71,6 +71,8 @@ def kinds() -> dict[str, dict]:
         "c200": {"fam": "CharArray", "size": 200, "align": 1, "elem": "ch", "n": 200},  # a large block
         "cust16": {"fam": "Custom", "size": 2, "align": 2, "host": True},   # a user-defined fixed-size type: not supported by the generator
         "ecust": {"fam": "Enum", "size": 2, "align": 2, "enum_of": "cust16"},   # an enum over it: not supported either
+        "cust16[2]": {"fam": "Array", "size": 4, "align": 2, "elem": "cust16", "n": 2, "host": True},  # an array of it: not supported either
+        "u8[0]": {"fam": "Array", "size": 0, "align": 1, "elem": "u8", "n": 0}, "u16[0]": {"fam": "Array", "size": 0, "align": 2, "elem": "u16", "n": 0},  # flexible array members
         "void": {"fam": "Void", "size": 0, "align": 1, "optional": True},  # occupies nothing: the generated reader may leave it to the default
     }
     for name, base, bits in [("u8:3", "u8", 3), ("u8:5", "u8", 5), ("u16:4", "u16", 4), ("u16:12", "u16", 12), ("u32:12", "u32", 12), ("e16:4", "e16", 4),
@@ -84,7 +86,7 @@ def kinds() -> dict[str, dict]:
 
 
 FIELD_KINDS = ["u8", "u16", "u32", "u64", "i16", "f32", "i24", "ch", "wc", "c5", "w3", "e16", "fl8", "e24", "p32", "p32b", "e16b", "u16[3]", "i24[2]", "e16[2]", "e24[2]", "p32[2]",
-               "f32[2]", "ch[1]", "void", "cust16", "ecust", "st", "st[2]", "u8[2][2]", "dyn", "dyn4", "dync", "u8:3", "u8:5", "u16:4", "u16:12", "u32:12", "e16:4", "ch:4", "u16:0", "i24:4", "i24:20", "u32@8", "u8@1"]
+               "f32[2]", "ch[1]", "void", "cust16", "ecust", "cust16[2]", "u8[0]", "u16[0]", "st", "st[2]", "u8[2][2]", "dyn", "dyn4", "dync", "u8:3", "u8:5", "u16:4", "u16:12", "u32:12", "e16:4", "ch:4", "u16:0", "i24:4", "i24:20", "u32@8", "u8@1"]
 LONGER = [("u8", "u32", "u16"), ("u8:3", "u8:5", "u8:3"), ("u16:4", "u16:12", "u16:4"), ("u8", "dyn", "u32", "u8"), ("u8:3", "u16:4", "u8:3", "u32"),
           ("c5", "u64", "u8", "e16:4", "u16:4"), ("u8", "i24", "u8", "u64"), ("u8:3", "dyn4", "u8:3", "u32"), ("u8", "dyn", "u8:3", "u8:5", "u16"),
           ("u32@8", "u8", "u16:4"), ("u16", "u8@1", "u32"), ("u8", "dyn", "u32", "u8", "u64"), ("u8", "u16[3]", "u8", "p32"), ("ch:4", "u8:3", "u8"),
@@ -92,7 +94,7 @@ LONGER = [("u8", "u32", "u16"), ("u8:3", "u8:5", "u8:3"), ("u16:4", "u16:12", "u
           ("u8", "u8", "u8", "u32", "u8", "u64", "u16"), ("dyn", "i24:4", "i24:4", "u8"), ("dyn", "i24:4", "i24:20", "i24:4", "u8"), ("dyn", "u8:3", "u8:5", "u8:3", "u16"),
           ("dyn4", "u16:4", "u16:12", "u16:4", "u32"), ("c200",), ("u8", "c200", "u32"),
           ("dyn", "u32", "u8", "u16", "u32"), ("dyn", "u8", "u16", "u8", "u32"), ("dyn", "u8", "u32", "u8", "u64"), ("u8", "dyn", "u16", "u8", "u32", "u8"), ("u16", "u32", "u16"),
-          ("u8", "u16", "u32", "u8"), ("u16:4", "st", "u16:4", "u8"), ("u32", "u8@1", "u8"), ("u8", "ecust", "u8"), ("ecust", "u16")]
+          ("u8", "u16", "u32", "u8"), ("u16:4", "st", "u16:4", "u8"), ("u32", "u8@1", "u8"), ("u8", "ecust", "u8"), ("ecust", "u16"), ("u8", "cust16[2]", "u8"), ("i24", "u8[0]"), ("i24", "ch", "u16[0]"), ("c5", "u8[0]", "u8")]
 
 
 def base_of(name: str) -> str:
@@ -133,6 +135,8 @@ class Harness:
         self.bb = BitBufferModel(repo)
         self.classes = {n: Sym(f"class:{n}") for n in _LIB_CLASSES}
         self.classes["PyEnum"] = Sym("class:PyEnum")
+        # what a fallback may install: classmethod(Structure._read.__func__) - the plain function, re-bound to the structure it is installed on
+        self.classes["Structure"].attrs["_read"] = Sym("Structure._read (bound to the Structure base class)", {"__func__": Sym("Structure._read.__func__")})
         self.captured: list[tuple[str, dict]] = []
         self.cs_objects: dict[str, Sym] = {}
         self.mod = repo.module("compiler.py")
@@ -610,6 +614,15 @@ def run_compiled(h: Harness, fn: Sym, seq: tuple[str, ...], align: bool, start: 
             return ("raise", f"EOFError: {e}")
         except (struct.error, UnicodeDecodeError) as e:
             return ("raise", f"{type(e).__name__}: {e}")
+        except Refused as e:
+            # a name the generated function reads that is neither one of its globals nor a Python builtin: Python raises NameError / UnboundLocalError
+            import builtins
+            import re as _re
+
+            m = _re.match(r"unknown name (\w+)$", str(e))
+            if m and not hasattr(builtins, m.group(1)):
+                return ("raise", f"NameError: name '{m.group(1)}' is not defined in the generated reader")
+            raise
         return ("ok", (obj, st.pos))
 
     out: list[str] = []
@@ -707,6 +720,15 @@ def _fold_chunk(h: Harness, env: dict[str, Any], gen_types: dict[str, Sym], seqs
                 except Raised as e:
                     out["bad"].append((list(seq), "aligned" if align else "packed", "-", "-", f"[raise] compile() itself raised {e} (the repository catches generator errors and falls back)"))
                     continue
+                if g is not None and g[0] is None:
+                    # not compiled: the structure keeps the reader it had, or gets the interpreted one re-bound to itself
+                    left = g[1].attrs.get("_read")
+                    if left is not None and not (isinstance(left, Sym) and left.label == "Structure._read.__func__"):
+                        out["bad"].append((list(seq), "aligned" if align else "packed", "-", "-",
+                                           f"[raise] a structure that cannot be compiled is left with {left!r} as its reader instead of the interpreted reader bound to itself "
+                                           "(classmethod(Structure._read.__func__)): reading it fails or reads as another class"))
+                    if g[1].attrs.get("__compiled__"):
+                        out["bad"].append((list(seq), "aligned" if align else "packed", "-", "-", "[raise] a structure that was not compiled is flagged __compiled__"))
                 if g is None or g[0] is None:
                     continue
                 out["compiled"] += 1
